@@ -46,6 +46,10 @@ func main() {
 	replay := flag.String("replay", "", "replay file")
 	gencorpus := flag.String("gencorpus", "", "write the frozen corpus into this directory (run against the pinned commit)")
 	flag.Parse()
+	// several checks switch the collector off so that sync.Pool contents survive from one operation to
+	// the next; a soft memory limit still makes the runtime collect when the heap approaches it (the
+	// thorough tiers would otherwise grow past the memory the runs are given)
+	debug.SetMemoryLimit(3 << 30)
 	if *gencorpus != "" {
 		m, err := model.Start(*zmodel, zh.BlobOracle)
 		must(err)
